@@ -498,7 +498,7 @@ SUITES = [SshSuite(), CopySuite(), CopyForeignSuite()]
 
 
 def extra_obligations(tier):
-    """the translated part of the model: SSHConnector._connect's command line, regenerated from the current source and
-    re-proved equal to ssh_argv (the function the parsing theorems are about)"""
+    """the translated part of the model: SSHConnector._connect's and _scp_copy's command lines, regenerated from the current source and
+    re-proved equal to ssh_argv / scp_argv (the functions the parsing theorems are about)"""
     from vlib import gen
-    return gen.obligations(only=["gen_ssh_argv_is_the_model"])
+    return gen.obligations(only=["gen_ssh_argv_is_the_model", "gen_scp_argv_is_the_model"])
